@@ -86,6 +86,9 @@ pub struct Profile {
     /// WSDLs whose own target namespace differs from their inline schema's, and several inline schemas
     #[serde(default)]
     pub wsdl_shapes: bool,
+    /// global elements of a builtin type, referred to with element ref=
+    #[serde(default)]
+    pub elem_of_builtin: bool,
 }
 
 fn yes() -> bool {
@@ -132,6 +135,7 @@ impl Profile {
             xml_lang: 0,
             reserved_prefix_uris: true,
             wsdl_shapes: true,
+            elem_of_builtin: true,
         }
     }
     /// switch a feature off by its tag name; returns false for an unknown tag
@@ -951,13 +955,22 @@ pub fn build(raw: &RawModel, p: &Profile) -> (Model, BuildStats) {
                     (Comp { name: nm, kind: CompKind::ElementAnon(body), doc: if p.docs { doc.clone() } else { None } }, 2)
                 }
                 RawComp::ElemTyped { name, ty, same_name } => {
-                    // typed global elements point at complex types (an alias to a builtin cannot
-                    // be used as a struct-typed member)
+                    let sel = if let RawTy::Named(s) = ty { *s } else { 0 };
+                    // a global element of a builtin type (emitted as a type alias; members that
+                    // refer to it take the builtin type)
+                    if p.elem_of_builtin && sel % 5 == 0 && !*same_name {
+                        b.stats.feat("element.of-builtin-type");
+                        let nm = b.comp_name(fi, name, true);
+                        let builtin = BUILTINS[(sel / 5) as usize % BUILTINS.len()].to_string();
+                        b.files[fi].comps.push(Comp { name: nm, kind: CompKind::ElementTyped(TypeRef::Builtin(builtin)), doc: None });
+                        b.slots.push(Slot { q, tag: 3 });
+                        continue;
+                    }
+                    // otherwise typed global elements point at complex types
                     let c = b.candidates(fi, limit, &[1], false);
                     if c.is_empty() {
                         continue;
                     }
-                    let sel = if let RawTy::Named(s) = ty { *s } else { 0 };
                     let t = c[idx(sel, c.len())];
                     let type_name = b.files[t.file].comps[t.comp].name.clone();
                     let already = b.files[fi].comps.iter().any(|c| matches!(c.kind, CompKind::ElementTyped(_) | CompKind::ElementAnon(_)) && c.name.pascal() == type_name.pascal());
@@ -1126,10 +1139,15 @@ fn mk_direction(messages: &mut Vec<Message>, stats: &mut BuildStats, p: &Profile
         if n_headers > 0 {
             stats.feat("wsdl.header");
         }
-        // without parts= a document-literal message has exactly one part (WS-I R2210)
-        let body_named = if ps.len() > 1 { true } else { named || !p.body_without_parts };
+        // without parts= the body carries the parts that are not bound to a header, and a
+        // document-literal body has exactly one part (WS-I R2210): every other part is a header
+        let all_others_are_headers = n_headers == ps.len() - 1;
+        let body_named = if !all_others_are_headers { true } else { named || !p.body_without_parts };
         if !body_named {
             stats.feat("wsdl.body-without-parts");
+            if n_headers > 0 {
+                stats.feat("wsdl.body-without-parts.with-headers");
+            }
         }
         Direction { message: mi, body_part: 0, body_named, headers: (1..=n_headers).collect() }
     }
